@@ -3,7 +3,6 @@
 // `read_doc` is what the real `FromStr for Deb822` is proved to compute (contracts.vspec); the
 // statement itself — reading the printed text gives back the value — is the theorem in roundtrip.rs.
 // ---------------------------------------------------------------------------------------------
-pub type Tok = (SyntaxKind, Seq<char>);
 pub type FieldV = (Seq<char>, Seq<char>);
 
 pub open spec fn tok_skip_ws(ts: Seq<Tok>) -> Seq<Tok>
